@@ -2,7 +2,7 @@
 import ast
 import re
 
-from .common import ctx, returns, calls_in_ctx, reach_from_succ, site, srcs_text, resolve_call, path_texts
+from .common import ctx, returns, calls_in_ctx, reach_from_succ, site, srcs_text, resolve_call, path_texts, explore
 from ..flow import callee_attr
 from ..loader import AnalysisError, norm, FuncT
 from ..sql import statements, triggers, tables
@@ -262,6 +262,61 @@ def run(R):
                    f'not depend on {sorted(bad[0][1])}: a different key with the same key locator gets the other key\'s signer', site(gs, bad[0][0]))
         else:
             R.ok('C15.CKY.1', inst, site(gs, keys[0][1]), f'key depends on {sorted(argnames)}')
+    # NUL.1 presence of a signing argument
+    R.ob('C15.NUL.1', 'get_signer: a Key / Identity object given as signing argument is used as given even when it holds nothing (these are '
+                      'Mappings: an object with no certificates / keys left is falsy)')
+    from .common import truthy_label
+    n_arg = 0
+    for n in gs.cfg.nodes:
+        for (nm, v) in gs.cfg.defs_of(n):
+            if not (isinstance(v, ast.Call) and ast.unparse(v.func) == 'sign_args.get' and v.args and isinstance(v.args[0], ast.Constant)):
+                continue
+            # classes the argument is told apart by (`isinstance(arg, Key)`): sized ones make truthiness mean "has members"
+            sized = []
+            for t in gs.cfg.nodes:
+                if t.kind == 'test' and isinstance(t.ast, ast.Call) and isinstance(t.ast.func, ast.Name) and t.ast.func.id == 'isinstance' \
+                        and len(t.ast.args) == 2 and isinstance(t.ast.args[0], ast.Name) and t.ast.args[0].id == nm:
+                    r_ = P.resolve(gs.f.mod, t.ast.args[1])
+                    if r_ and r_[0] == 'class':
+                        for (mm, cc) in P.mro(r_[1], r_[2]):
+                            if P.find_member(mm, cc, '__len__') or P.find_member(mm, cc, '__bool__'):
+                                sized.append(r_[2])
+                                break
+            if not sized:
+                continue
+            n_arg += 1
+            inst = f'{gs.qual} :: presence of `{v.args[0].value}`'
+            # valuation "the argument is an object of that class that holds nothing": falsy, not None, isinstance true. The code that uses it
+            # as such an object (the body of an `isinstance(arg, Class)` branch) must be reached - not the fall-back for an argument not given
+            def atom(e, nm=nm, sized=tuple(sized)):
+                if isinstance(e, ast.Name) and e.id == nm:
+                    return False
+                lab = truthy_label(e, nm)
+                if lab is not None and isinstance(e, ast.Compare):
+                    return lab            # `nm is not None` -> True, `nm is None` -> False
+                if isinstance(e, ast.Call) and isinstance(e.func, ast.Name) and e.func.id == 'isinstance' and len(e.args) == 2 \
+                        and isinstance(e.args[0], ast.Name) and e.args[0].id == nm:
+                    r2 = P.resolve(gs.f.mod, e.args[1])
+                    return bool(r2 and r2[0] == 'class' and r2[2] in sized)
+                return None
+            reach = explore(gs, atom, start=n)
+            uses = []
+            for t in gs.cfg.nodes:
+                if t.kind == 'test' and atom(t.ast) is True and isinstance(t.ast, ast.Call) and isinstance(t.stmt, ast.If):
+                    body_nodes = {id(x) for st_ in t.stmt.body for x in ast.walk(st_)}
+                    uses += [m for m in gs.cfg.nodes if m.ast is not None and id(m.ast) in body_nodes
+                             and any(isinstance(x, ast.Name) and x.id == nm and isinstance(x.ctx, ast.Load) for x in ast.walk(m.ast))]
+            R.paths_examined += 1
+            if not uses:
+                raise AnalysisError(f'get_signer: no use of `{nm}` as a {"/".join(sized)} object found')
+            if not any(m.id in reach for m in uses):
+                bad_t = [t for t in gs.cfg.nodes if t.kind == 'test' and isinstance(t.ast, ast.Name) and t.ast.id == nm]
+                R.fail('C15.NUL.1', inst, gs.qual, bad_t[0].ast if bad_t else n.ast, f'`{nm}` may be a {"/".join(sorted(set(sized)))} object, whose truthiness is the '
+                       'number of entries it holds: one with nothing left (its certificates / keys were deleted) counts as "not given" and the signer of the default '
+                       'identity is returned instead of an error (repro notes/repro/e14.py)', site(gs, bad_t[0].ast if bad_t else n.ast))
+            else:
+                R.ok('C15.NUL.1', inst, site(gs, uses[0].ast))
+    R.need(n_arg >= 2, f'get_signer: only {n_arg} object-valued signing arguments found (key, identity expected)')
     # PRV.1 key locator default and argument order
     R.ob('C15.PRV.1', 'get_signer: the key locator defaults to the selected certificate name; tpm.get_signer gets (key name, key locator); '
                       'the key name is the one the selected certificate belongs to')
